@@ -291,3 +291,11 @@ def rule_slot(ctx):
 
 
 RULES.append(("C19.i", "reply slot of driver-side queries: the cell is freed by exactly one side, its value dropped exactly once (per-path evaluation of the state guards)", rule_slot))
+
+
+def rule_scoped_keys(ctx):
+    from . import scopedkey
+    scopedkey.rules(ctx)
+
+
+RULES.append(("C19.j", "scoped thread-local keys install, hand out and restore the right pointer: the active-task list used while dropping belongs to the executor being dropped", rule_scoped_keys))
